@@ -154,6 +154,7 @@ def _codec(fv):
     free = {x.id for x in ast.walk(fn) if isinstance(x, ast.Name) and isinstance(x.ctx, ast.Load)} - bound
     subst = {}
     structs = {}
+    bound = {}
     mod_ns = getattr(getattr(fv, "module", None), "ns", None) or {}
     for nm in free:
         if nm not in cv and nm in mod_ns and nm not in ("struct",):
@@ -161,6 +162,8 @@ def _codec(fv):
             v = mod_ns[nm]
             if isinstance(v, struct.Struct):
                 structs[nm] = v
+            elif isinstance(getattr(v, "__self__", None), struct.Struct) and getattr(v, "__name__", "") in ("pack", "unpack"):
+                bound[nm] = (v.__self__, v.__name__)        # _pack_u32 = struct.Struct("<L").pack
             elif isinstance(v, (int, bytes, str)) and not isinstance(v, bool):
                 subst[nm] = ast.Constant(v)
             continue
@@ -173,13 +176,16 @@ def _codec(fv):
                 subst[nm] = ast.Constant(v)
             elif isinstance(v, (FuncVal, ClassVal)) and getattr(v, "name", None):
                 subst[nm] = ast.Name(v.name, ast.Load())
-    if subst or structs:
+    if subst or structs or bound:
         import copy as _copy
 
         class _S(ast.NodeTransformer):
             def visit_Call(s_, n):
                 n = s_.generic_visit(n)
                 f_ = n.func
+                if isinstance(f_, ast.Name) and f_.id in bound and not n.keywords:
+                    st_, meth_ = bound[f_.id]
+                    return ast.copy_location(ast.Call(ast.Attribute(ast.Name("struct", ast.Load()), meth_, ast.Load()), [ast.Constant(st_.format)] + n.args, []), n)
                 if isinstance(f_, ast.Attribute) and isinstance(f_.value, ast.Name) and f_.value.id in structs and f_.attr in ("pack", "unpack") and not n.keywords:
                     return ast.copy_location(ast.Call(ast.Attribute(ast.Name("struct", ast.Load()), f_.attr, ast.Load()), [ast.Constant(structs[f_.value.id].format)] + n.args, []), n)
                 return n
